@@ -2,6 +2,7 @@ package main
 
 import (
 	"go/token"
+	"go/types"
 	"regexp"
 	"sort"
 	"strings"
@@ -220,8 +221,15 @@ func (P *Prog) guardsBetween(from, to *ssa.BasicBlock, at ssa.Instruction) []Ato
 }
 
 // RequiresCut: is target unreachable from block from once every edge selected by cutEdge is removed?
-// cutEdge receives the normalised atom established by taking that edge.
+// cutEdge receives the normalised atom established by taking that edge. An edge that tests the success of a
+// repo callee (err == nil, ok == true) also counts as cut when every success return of that callee is itself
+// reachable only across cut edges (atoms translated to the caller by substituting arguments for parameters):
+// a check that was extracted into a helper function is still seen.
 func (P *Prog) RequiresCut(from, target *ssa.BasicBlock, cutEdge func(a Atom) bool) bool {
+	return P.requiresCutDepth(from, target, cutEdge, 3)
+}
+
+func (P *Prog) requiresCutDepth(from, target *ssa.BasicBlock, cutEdge func(a Atom) bool, depth int) bool {
 	if from == target {
 		return false
 	}
@@ -233,14 +241,212 @@ func (P *Prog) RequiresCut(from, target *ssa.BasicBlock, cutEdge func(a Atom) bo
 		if !ok || len(b.Succs) != 2 {
 			return true
 		}
-		for _, a := range P.condAtoms(ifi.Cond, ifi, i == 0, 0) {
+		atoms := P.condAtoms(ifi.Cond, ifi, i == 0, 0)
+		for _, a := range atoms {
 			if cutEdge(a) {
 				return false
 			}
 		}
+		if depth > 0 {
+			for _, a := range atoms {
+				if P.calleeEstablishes(a, cutEdge, depth-1) {
+					return false
+				}
+			}
+		}
+		if P.phiDisjunctionCut(b, ifi, i == 0, cutEdge, depth) {
+			return false
+		}
 		return true
 	}
 	return !reachBlock(from, target, filter)
+}
+
+// phiDisjunctionCut: the branch tests a materialised boolean (tmp := a || b; if tmp …). Taking the edge on which
+// the Phi has truth value want counts as a cut when every way the Phi can obtain that value is itself a cut:
+// a constant incoming edge must come from a predecessor branch establishing a cut atom, a computed incoming
+// value must establish one.
+func (P *Prog) phiDisjunctionCut(b *ssa.BasicBlock, ifi *ssa.If, takenTrue bool, cutEdge func(Atom) bool, depth int) bool {
+	c := ifi.Cond
+	neg := false
+	for {
+		if u, ok := c.(*ssa.UnOp); ok && u.Op == token.NOT {
+			neg = !neg
+			c = u.X
+			continue
+		}
+		break
+	}
+	phi, ok := c.(*ssa.Phi)
+	if !ok {
+		return false
+	}
+	want := takenTrue != neg
+	pb := phi.Block()
+	n := 0
+	for i, e := range phi.Edges {
+		if i >= len(pb.Preds) {
+			return false
+		}
+		pred := pb.Preds[i]
+		if k, isC := e.(*ssa.Const); isC && k.Value != nil {
+			if (k.Value.ExactString() == "true") != want {
+				continue
+			}
+			// the edge pred -> pb must be established by a cut atom
+			pif, ok := pred.Instrs[len(pred.Instrs)-1].(*ssa.If)
+			if !ok || len(pred.Succs) != 2 {
+				return false
+			}
+			matched := false
+			for j, s := range pred.Succs {
+				if s != pb {
+					continue
+				}
+				for _, a := range P.condAtoms(pif.Cond, pif, j == 0, 0) {
+					if cutEdge(a) || (depth > 0 && P.calleeEstablishes(a, cutEdge, depth-1)) {
+						matched = true
+					}
+				}
+			}
+			if !matched {
+				return false
+			}
+			n++
+			continue
+		}
+		matched := false
+		for _, a := range P.condAtoms(e, phi, want, 0) {
+			if cutEdge(a) || (depth > 0 && P.calleeEstablishes(a, cutEdge, depth-1)) {
+				matched = true
+			}
+		}
+		if !matched {
+			return false
+		}
+		n++
+	}
+	return n > 0
+}
+
+// atomCallee decodes an atom that speaks about the result of a repo callee: (call term, result index, wanted class).
+func (P *Prog) atomCallee(a Atom) (*Term, int, string) {
+	t := a.T
+	want := ""
+	var callT *Term
+	switch {
+	case t.Op == "call" && t.Name == "isnil" && a.Pos:
+		want = "nil"
+		callT = t.Args[0]
+	case t.Op == "call" && t.Name == "isnil":
+		return nil, 0, ""
+	case a.Pos:
+		want = "true"
+		callT = t
+	default:
+		return nil, 0, ""
+	}
+	idx := 0
+	if callT.Op == "extract" {
+		n := 0
+		for _, ch := range callT.Name {
+			n = n*10 + int(ch-'0')
+		}
+		idx = n
+		callT = callT.Args[0]
+	}
+	if callT.Op != "call" {
+		return nil, 0, ""
+	}
+	return callT, idx, want
+}
+
+func (P *Prog) calleeEstablishes(a Atom, cutEdge func(Atom) bool, depth int) bool {
+	callT, idx, want := P.atomCallee(a)
+	if callT == nil {
+		return false
+	}
+	callee := P.Fn(callT.Name)
+	if callee == nil || len(callee.Blocks) == 0 {
+		return false
+	}
+	m := map[string]*Term{}
+	for i, p := range callee.Params {
+		if i < len(callT.Args) {
+			m[pinnedParamName(p)] = callT.Args[i]
+		}
+	}
+	sub := func(x Atom) bool { return cutEdge(Atom{T: x.T.Subst(m), Pos: x.Pos, If: x.If}) }
+	n := 0
+	for _, r := range Returns(callee) {
+		cls, _ := P.retClass(r, idx)
+		if cls != want && cls != "unknown" {
+			continue
+		}
+		n++
+		if !P.requiresCutDepth(callee.Blocks[0], r.Block(), sub, depth) {
+			return false
+		}
+	}
+	return n > 0
+}
+
+// ValueAlternatives expands a term that is the result of a small repo helper into the terms that helper can
+// return on its success returns (arguments substituted for parameters), recursively; phi alternatives are split.
+func (P *Prog) ValueAlternatives(t *Term, depth int) []*Term {
+	if t == nil {
+		return nil
+	}
+	if t.Op == "phi" {
+		var out []*Term
+		for _, a := range t.Args {
+			out = append(out, P.ValueAlternatives(a, depth)...)
+		}
+		return out
+	}
+	if depth <= 0 {
+		return []*Term{t}
+	}
+	callT, idx := t, 0
+	if t.Op == "extract" {
+		n := 0
+		for _, ch := range t.Name {
+			n = n*10 + int(ch-'0')
+		}
+		idx = n
+		callT = t.Args[0]
+	}
+	if callT.Op != "call" {
+		return []*Term{t}
+	}
+	callee := P.Fn(callT.Name)
+	if callee == nil || len(callee.Blocks) == 0 || len(callee.Blocks) > 12 {
+		return []*Term{t}
+	}
+	m := map[string]*Term{}
+	for i, p := range callee.Params {
+		if i < len(callT.Args) {
+			m[pinnedParamName(p)] = callT.Args[i]
+		}
+	}
+	eidx, _ := errIndex(callee.Signature)
+	var out []*Term
+	for _, r := range Returns(callee) {
+		if eidx >= 0 && eidx != idx {
+			if cls, _ := P.retClass(r, eidx); cls == "nonnil" {
+				continue
+			}
+		}
+		if idx >= len(r.Results) {
+			continue
+		}
+		rt := P.TermAt(r.Results[idx], r).Subst(m)
+		out = append(out, P.ValueAlternatives(rt, depth-1)...)
+	}
+	if len(out) == 0 {
+		return []*Term{t}
+	}
+	return out
 }
 
 // ---------------------------------------------------------------------------
@@ -410,6 +616,9 @@ func (P *Prog) inlineAtom(a Atom, depth int) []Atom {
 	if callee == nil || len(callee.Blocks) == 0 {
 		return nil
 	}
+	if eq := P.boolEquiv(a); len(eq) > 0 {
+		return eq
+	}
 	if want == "false" {
 		// a predicate known false: only useful for tiny predicates; expand "every true-return is excluded" is not sound in general
 		return nil
@@ -422,7 +631,7 @@ func (P *Prog) inlineAtom(a Atom, depth int) []Atom {
 	m := map[string]*Term{}
 	for i, p := range callee.Params {
 		if i < len(callT.Args) {
-			m[p.Name()] = callT.Args[i]
+			m[pinnedParamName(p)] = callT.Args[i]
 		}
 	}
 	var out []Atom
@@ -494,22 +703,70 @@ func ReachFromBlock(b *ssa.BasicBlock, target, avoid func(ssa.Instruction) bool,
 }
 
 func reachWithoutFrom(start ipos, target, avoid func(ssa.Instruction) bool, ok edgeFilter) (bool, ssa.Instruction, []*ssa.BasicBlock) {
+	return reachWithoutFromPred(start, nil, target, avoid, ok)
+}
+
+// phiBranchTarget: block b was entered from pred; if b branches on a boolean Phi (possibly negated) defined in b
+// whose incoming value along that edge is a constant, only one successor is feasible: return its index, else -1.
+func phiBranchTarget(b, pred *ssa.BasicBlock) int {
+	if pred == nil || len(b.Instrs) == 0 || len(b.Succs) != 2 {
+		return -1
+	}
+	ifi, ok := b.Instrs[len(b.Instrs)-1].(*ssa.If)
+	if !ok {
+		return -1
+	}
+	c := ifi.Cond
+	neg := false
+	for {
+		if u, ok := c.(*ssa.UnOp); ok && u.Op == token.NOT {
+			neg = !neg
+			c = u.X
+			continue
+		}
+		break
+	}
+	phi, ok := c.(*ssa.Phi)
+	if !ok || phi.Block() != b {
+		return -1
+	}
+	for i, p := range b.Preds {
+		if p == pred && i < len(phi.Edges) {
+			if k, isC := phi.Edges[i].(*ssa.Const); isC && k.Value != nil {
+				v := k.Value.ExactString() == "true"
+				if neg {
+					v = !v
+				}
+				if v {
+					return 0
+				}
+				return 1
+			}
+		}
+	}
+	return -1
+}
+
+func reachWithoutFromPred(start ipos, startPred *ssa.BasicBlock, target, avoid func(ssa.Instruction) bool, ok edgeFilter) (bool, ssa.Instruction, []*ssa.BasicBlock) {
 	type item struct {
 		b    *ssa.BasicBlock
+		pred *ssa.BasicBlock
 		from int
 	}
+	type key struct{ b, pred *ssa.BasicBlock }
 	parent := map[*ssa.BasicBlock]*ssa.BasicBlock{}
-	seen := map[*ssa.BasicBlock]bool{}
-	work := []item{{start.b, start.i}}
+	seen := map[key]bool{}
+	work := []item{{start.b, startPred, start.i}}
 	first := true
 	for len(work) > 0 {
 		it := work[0]
 		work = work[1:]
 		if !first || it.from == 0 {
-			if seen[it.b] {
+			k := key{it.b, it.pred}
+			if seen[k] {
 				continue
 			}
-			seen[it.b] = true
+			seen[k] = true
 		}
 		first = false
 		blocked := false
@@ -523,33 +780,41 @@ func reachWithoutFrom(start ipos, target, avoid func(ssa.Instruction) bool, ok e
 				var path []*ssa.BasicBlock
 				for b := it.b; b != nil; b = parent[b] {
 					path = append([]*ssa.BasicBlock{b}, path...)
-					if b == start.b {
+					if b == start.b || len(path) > 64 {
 						break
 					}
 				}
 				return true, in, path
 			}
-			if avoid != nil && avoid(in) {
-				blocked = true
-				break
-			}
 		}
 		if blocked {
 			continue
 		}
+		only := -1
+		if it.from == 0 {
+			only = phiBranchTarget(it.b, it.pred)
+		}
 		for i, s := range it.b.Succs {
+			if only >= 0 && i != only {
+				continue
+			}
 			if ok != nil && !ok(it.b, i) {
 				continue
 			}
-			if !seen[s] {
-				if _, has := parent[s]; !has {
+			if !seen[key{s, it.b}] {
+				if _, has := parent[s]; !has && s != start.b {
 					parent[s] = it.b
 				}
-				work = append(work, item{s, 0})
+				work = append(work, item{s, it.b, 0})
 			}
 		}
 	}
 	return false, nil, nil
+}
+
+// ReachFromEdge is ReachWithout starting at the successor reached by taking edge b -> b.Succs[i].
+func ReachFromEdge(b *ssa.BasicBlock, i int, target, avoid func(ssa.Instruction) bool, ok edgeFilter) (bool, ssa.Instruction, []*ssa.BasicBlock) {
+	return reachWithoutFromPred(ipos{b.Succs[i], 0}, b, target, avoid, ok)
 }
 
 func isReturn(in ssa.Instruction) bool { _, ok := in.(*ssa.Return); return ok }
@@ -614,4 +879,103 @@ func (P *Prog) blockPathString(path []*ssa.BasicBlock) string {
 		ss = append(ss, line)
 	}
 	return strings.Join(ss, " → ")
+}
+
+// EdgeGuards: atoms that hold whenever the CFG edge pred→pred.Succs[k] is taken.
+func (P *Prog) EdgeGuards(pred *ssa.BasicBlock, k int) []Atom {
+	if len(pred.Instrs) == 0 {
+		return nil
+	}
+	term := pred.Instrs[len(pred.Instrs)-1]
+	out := append([]Atom{}, P.LocalGuards(term)...)
+	if ifi, ok := term.(*ssa.If); ok && len(pred.Succs) == 2 && pred.Succs[0] != pred.Succs[1] {
+		out = append(out, P.condAtoms(ifi.Cond, ifi, k == 0, 0)...)
+	}
+	return dedupeAtoms(out)
+}
+
+// RetAlt is one way a function produces result #idx: the value and the atoms that hold when it is produced.
+type RetAlt struct {
+	T   *Term
+	G   []Atom
+	Ret *ssa.Return
+}
+
+// RetAlternatives lists the alternatives of result idx independent of whether the function is written with a
+// single return of a merged variable or with early returns: a returned Phi is split into its incoming values,
+// each with the guards of its incoming edge.
+func (P *Prog) RetAlternatives(f *ssa.Function, idx int) []RetAlt {
+	var out []RetAlt
+	var expand func(v ssa.Value, at ssa.Instruction, g []Atom, ret *ssa.Return, depth int)
+	expand = func(v ssa.Value, at ssa.Instruction, g []Atom, ret *ssa.Return, depth int) {
+		if phi, ok := v.(*ssa.Phi); ok && depth < 4 {
+			pb := phi.Block()
+			for i, e := range phi.Edges {
+				if i >= len(pb.Preds) {
+					continue
+				}
+				p := pb.Preds[i]
+				k := 0
+				for j, s := range p.Succs {
+					if s == pb {
+						k = j
+					}
+				}
+				expand(e, phi, dedupeAtoms(append(append([]Atom{}, g...), P.EdgeGuards(p, k)...)), ret, depth+1)
+			}
+			return
+		}
+		out = append(out, RetAlt{P.TermAt(v, at), g, ret})
+	}
+	for _, ret := range Returns(f) {
+		if idx >= len(ret.Results) {
+			continue
+		}
+		expand(ret.Results[idx], ret, P.LocalGuards(ret), ret, 0)
+	}
+	return out
+}
+
+// boolEquiv: a test delegated to a single-return boolean function of the repo is equivalent to that function's
+// return expression (g.IsPastLimit() ≡ g.consumed > g.limit); both polarities translate.
+func (P *Prog) boolEquiv(a Atom) []Atom {
+	callT := a.T
+	idx := 0
+	if callT.Op == "extract" {
+		var n int
+		for _, ch := range callT.Name {
+			n = n*10 + int(ch-'0')
+		}
+		idx = n
+		callT = callT.Args[0]
+	}
+	if callT.Op != "call" || callT.Name == "isnil" {
+		return nil
+	}
+	callee := P.Fn(callT.Name)
+	if callee == nil || len(callee.Blocks) == 0 {
+		return nil
+	}
+	rets := Returns(callee)
+	if len(rets) != 1 || idx >= len(rets[0].Results) {
+		return nil
+	}
+	bt, ok := rets[0].Results[idx].Type().Underlying().(*types.Basic)
+	if !ok || bt.Kind() != types.Bool {
+		return nil
+	}
+	m := map[string]*Term{}
+	for i, p := range callee.Params {
+		if i < len(callT.Args) {
+			m[pinnedParamName(p)] = callT.Args[i]
+		}
+	}
+	var out []Atom
+	for _, x := range P.condAtoms(rets[0].Results[idx], rets[0], a.Pos, 0) {
+		if x.T.Op == "phi" {
+			continue
+		}
+		out = append(out, Atom{T: x.T.Subst(m), Pos: x.Pos, If: a.If, Via: short(callee.String())})
+	}
+	return out
 }
